@@ -65,6 +65,31 @@ def gen_case(rng, spec):
     rules = []
     for w, h, b in g["rules"]:
         rules.append([w, h, [rng.choice(terms) if y in g["V"] else y for y in b]])
+    # rules of one head whose bodies become IDENTICAL after encoding: a multi-character terminal next to the same
+    # characters as separate terminals, and literal duplicates
+    two = [t for t in terms if len(t) == 2]
+    if two and rng.random() < 0.6:
+        t = rng.choice(two)
+        for c in t:
+            if c not in terms:
+                terms.append(c)
+        cand = [r for r in rules if t in r[2]]
+        if cand:
+            w, h, b = rng.choice(cand)
+        else:
+            w, h, b = rules[0][0], rules[0][1], [t] + list(rules[0][2])[:1]
+            rules.append([w, h, b])
+        split = []
+        for y in b:
+            split += list(t) if y == t else [y]
+        from fractions import Fraction as _Fr
+
+        rules.append([w / 2 if rng.random() < 0.5 else w, h, split])
+    if rng.random() < 0.3:
+        w, h, b = rng.choice(rules)
+        rules.append([w, h, list(b)])
+    terms = sorted(set(terms))
+    rules = [[w / 2, h, b] for w, h, b in rules]  # keep the convergence bound after adding rules
     R = rng.choice(["Q", "Float"])
     an = GG.analyse({"S": g["S"], "V": g["V"], "rules": g["rules"]})
     if {"eps_cycle"} & (set(GA.classify_wfsa(m)) | set(GA.classify_wfsa(m2))) or "nullable_cycle" in an["classes"] or "recursive" in an["classes"]:
